@@ -169,6 +169,7 @@ pub struct Wire {
     pub tx_calls: u32,
     pub flush_calls: u32,
     tx_wb_left: Option<u32>,
+    flush_wb_left: Option<u32>,
     pub tx_hard_errors: u32,
     pub tx_flush_errors: u32,
     pub tx_flush_ok_after_last_write: bool,
@@ -203,6 +204,7 @@ impl Wire {
             tx_calls: 0,
             flush_calls: 0,
             tx_wb_left: None,
+            flush_wb_left: None,
             tx_hard_errors: 0,
             tx_flush_errors: 0,
             tx_flush_ok_after_last_write: true,
@@ -569,6 +571,39 @@ impl embedded_hal::serial::Write<u8> for Dev {
     }
 
     fn flush(&mut self) -> nb::Result<(), ()> {
+        let _g = SimDomain::enter();
+        // a transmitter that is still shifting out reports would-block here too
+        let (wb, left) = {
+            let w = self.tx.borrow();
+            (w.tx.wb, w.flush_wb_left)
+        };
+        let answer_wb = match left {
+            Some(0) => {
+                self.tx.borrow_mut().flush_wb_left = None;
+                false
+            }
+            Some(n) => {
+                self.tx.borrow_mut().flush_wb_left = Some(n - 1);
+                true
+            }
+            None => {
+                if self.sim.chance(wb) {
+                    let burst = self.tx.borrow().tx.wb_burst.max(1);
+                    let k = 1 + self.sim.draw(burst.min(50));
+                    self.tx.borrow_mut().flush_wb_left = Some(k - 1);
+                    true
+                } else {
+                    false
+                }
+            }
+        };
+        self.tx.borrow_mut().flush_calls += 1;
+        if answer_wb {
+            self.tx.borrow_mut().tx_wb_total += 1;
+            self.sim.event(EV_TX, 12, 0, || format!("{}.usart.flush -> WouldBlock", self.name));
+            return Err(nb::Error::WouldBlock);
+        }
+        self.sim.event(EV_TX, 13, 0, || format!("{}.usart.flush -> Ok", self.name));
         Ok(())
     }
 }
